@@ -52,7 +52,7 @@ PROPS = {
 }
 WORKERS = int(os.environ.get("VERIF_WORKERS", "12"))
 INFRA_CLASSES = {"INFRA", "MODEL"}
-UB_CLASSES = {"SANITIZER", "HEAP_GUARD", "SIGSEGV"}
+UB_CLASSES = {"SANITIZER", "HEAP_GUARD", "SIGSEGV", "HEAP_CORRUPTION"}
 
 
 def log(*a):
@@ -70,6 +70,10 @@ def classify_from_stderr(cls, msg, errtail):
     if "runtime error:" in errtail:
         m = re.search(r"runtime error: (.*)", errtail)
         return "SANITIZER", "UBSan: " + (m.group(1)[:200] if m else "report")
+    # glibc's own heap consistency checks (flavours without a sanitizer runtime): the heap was corrupted earlier
+    mm = re.search(r"(double free or corruption[^\n]*|malloc\(\): [^\n]*|free\(\): invalid[^\n]*|corrupted (?:size|double-linked list)[^\n]*|munmap_chunk\(\): invalid pointer|realloc\(\): invalid[^\n]*|malloc_consolidate\(\): [^\n]*)", errtail)
+    if mm:
+        return "HEAP_CORRUPTION", "glibc heap check: " + mm.group(1)[:160]
     if "FATAL ERROR" in errtail:
         i = errtail.rfind(">>> FATAL ERROR")
         seg = errtail[i:i + 600]
@@ -192,7 +196,7 @@ class Minimiser:
         op = os.path.join(self.tmp, "out-%d.json" % self.n_cand)
         json.dump(cand, open(cp, "w"))
         r = replay_once(self.h, cp, op, timeout=120)
-        if r["cls"] == self.cls and os.path.exists(op):
+        if (r["cls"] == self.cls or (self.cls in UB_CLASSES and r["cls"] in UB_CLASSES)) and os.path.exists(op):
             if self.best_out and os.path.exists(self.best_out):
                 os.remove(self.best_out)
             self.best_out = op
